@@ -871,6 +871,10 @@ class Builder(object):
                     src = self.currentStore.create(srcPath)
                     #assumes src share inited before this line parsed
                     for field in srcFields:
+                        if field not in src:
+                            msg = "ParseError: Building verb '%s'. Field '%s' not in source share '%s'" % \
+                                (command, field, srcPath)
+                            raise excepting.ParseError(msg, tokens, index)
                         init[field] = src[field]
 
                 else:
